@@ -94,6 +94,15 @@ def code_fields(ver):
 _PATH = []
 
 
+def istr(x):
+    """text of an int for the canonical tree: decimal for everyday values, hexadecimal for big ones (interpreters with the
+    int-to-str digit limit refuse str() of an int with more than 4300 digits; hex() has no limit)"""
+    x = int(x)
+    if -10 ** 18 < x < 10 ** 18:
+        return str(x)
+    return hex(x).rstrip("L")
+
+
 def canon(x, _depth=0):
     """canonical tree of a *native* object of the running interpreter"""
     if x is None:
@@ -106,9 +115,9 @@ def canon(x, _depth=0):
         return {"t": "stopiter"}
     t = type(x)
     if t is int:
-        return {"t": "int", "v": str(x)}
+        return {"t": "int", "v": istr(x)}
     if PY2 and t is long_type:
-        return {"t": "long2", "v": str(x)}
+        return {"t": "long2", "v": istr(x)}
     if t is float:
         return {"t": "float", "v": f2hex(x)}
     if t is complex:
